@@ -63,13 +63,13 @@ def _cases(tier):
     for d in (1, 8, 13, 160, 224, 256, 384, 512):
         for L in (0, 1, 2, 3, 64):
             for klen in (0, 5, 64):
-                full = d in (13, 256, 512) and klen in (0, 64)
+                full = d in (13, 256) and klen in (0, 64) and L in (0, 1, 64)
                 for n in (0, 1, 383, 384, 385, 511, 512, 513, 1024, 1537, 2048, 2049, 8193) if full else (0, 1, 385, 513):
                     if n == 8193 and not (d == 256 and klen == 0): continue
                     out.append({'d': d, 'L': L, 'klen': klen, 'n': n})
     return out
 @obligation(P, 'MD6.__call__/bounded', cls='B', opaque=M6.NAMES, cases=_cases, timeout=300, funcs=['crysp.md.MD6.__call__', 'crysp.md.MD6.PAR', 'crysp.md.MD6.SEQ'],
-            bound='digest sizes {256,13} (8 sizes thorough), modes L in {64,0,1} (+2,3), key lengths {0,5} (+64), message lengths 0..2049 bytes (1-3 tree levels; thorough: all 13 lengths for d in {13,256,512} and key lengths {0,64}, four lengths elsewhere, 4 levels (8193 bytes) for d=256 unkeyed), bit residue 3 on one length; contents and key symbolic; compression through its contract')
+            bound='digest sizes {256,13} (8 sizes thorough), modes L in {64,0,1} (+2,3), key lengths {0,5} (+64), message lengths 0..2049 bytes (1-3 tree levels; thorough: all 13 lengths for d in {13,256}, L in {0,1,64} and key lengths {0,64}, four lengths elsewhere, 4 levels (8193 bytes) for d=256 unkeyed), bit residue 3 on one length; contents and key symbolic; compression through its contract')
 def _(c):
     d, L, klen, n = c.case('d'), c.case('L'), c.case('klen'), c.case('n')
     install_f(c)
